@@ -21,25 +21,35 @@ from gen_translate import Method, Unsupported, fail
 REPO = Path(common.REPO)
 OUT = Path(__file__).resolve().parent.parent / "lean" / "JellyGenerated" / "FuncsGen.lean"
 FUNCS = [("pyjelly/parse/ioutils.py", "delimited_jelly_hint"), ("pyjelly/serialize/encode.py", "split_iri")]
-PTYPES = {"bytes": "Bytes", "str": "String", "int": "Nat"}
-RTYPES = {"bool": "Bool", "tuple[str, str]": "String × String", "int": "Nat", "str": "String"}
+PTYPES = {"bytes": "Bytes", "str": "String", "int": "Nat", "jelly.PhysicalStreamType": "Nat", "jelly.LogicalStreamType": "Nat", "bool": "Bool"}
+RTYPES = {"bool": "Bool", "tuple[str, str]": "String × String", "int": "Nat", "str": "String", "None": "Unit"}
 
 
 class Func(Method):
-    def __init__(self, fn: ast.FunctionDef):
-        ann = ast.unparse(fn.returns) if fn.returns is not None else None
+    def __init__(self, fn: ast.FunctionDef, name: str | None = None, self_attrs: dict[str, str] | None = None, ret: str | None = None,
+                 module_consts: dict[str, object] | None = None):
+        ann = ret or (ast.unparse(fn.returns) if fn.returns is not None else None)
         if ann not in RTYPES:
             fail(fn, f"return annotation {ann}")
         gt.TYPES.setdefault(ann, RTYPES[ann])
-        super().__init__("<module>", fn, {}, {}, struct="Unit", fields={}, name=fn.name)
+        fn = ast.FunctionDef(name=fn.name, args=fn.args, body=fn.body, decorator_list=[], returns=ast.parse(ann, mode="eval").body,
+                             lineno=fn.lineno, col_offset=0) if ret else fn
+        super().__init__("<module>", fn, {}, {}, struct="Unit", fields={}, name=name or fn.name)
         self.ptypes: dict[str, str] = {}
+        self.self_attrs = self_attrs or {}      # attribute of self -> Lean type: passed in as parameters
+        self.module_consts = module_consts or {}  # NAME -> int | list[int]
 
     def params(self):
         a = self.fn.args
         if a.vararg or a.kwarg or a.posonlyargs or a.defaults or a.kwonlyargs:
             fail(self.fn, "parameter list")
         out = []
+        for attr, ty in self.self_attrs.items():
+            self.ptypes[attr] = ty
+            out.append((attr, ty))
         for p in a.args:
+            if p.arg == "self":
+                continue
             ann = ast.unparse(p.annotation) if p.annotation is not None else None
             if ann not in PTYPES:
                 fail(self.fn, f"parameter annotation of {p.arg}")
@@ -61,6 +71,17 @@ class Func(Method):
             return self.ptypes.get(e.id) or ("String" if n in self.declared and self.local_type(n) == "String" else None)
         return None
 
+    def is_boolish(self, e) -> bool:
+        if isinstance(e, ast.Name) and self.ptypes.get(e.id) == "Bool":
+            return True
+        if isinstance(e, ast.Attribute) and isinstance(e.value, ast.Name) and e.value.id == "self" and self.self_attrs.get(e.attr) == "Bool":
+            return True
+        if isinstance(e, ast.Name) and e.id in self.bool_locals:
+            return True
+        return super().is_boolish(e)
+
+    bool_locals: set = set()
+
     def cond(self, e) -> str:
         if isinstance(e, ast.Name) and self.type_of(e) == "String":
             return f"({self.RENAME.get(e.id, e.id)} != \"\")"
@@ -69,6 +90,37 @@ class Func(Method):
     def expr(self, e) -> str:
         if isinstance(e, ast.Name) and e.id in self.RENAME:
             return self.RENAME[e.id]
+        # self.attr -> the parameter of that name
+        if isinstance(e, ast.Attribute) and isinstance(e.value, ast.Name) and e.value.id == "self" and e.attr in self.self_attrs:
+            return e.attr
+        # jelly.SOME_ENUM_CONSTANT -> its number in the generated protobuf module
+        if isinstance(e, ast.Attribute) and isinstance(e.value, ast.Name) and e.value.id == "jelly":
+            from pyjelly import jelly
+            v = getattr(jelly, e.attr, None)
+            if isinstance(v, int):
+                return str(int(v))
+            fail(e, "jelly attribute")
+        if isinstance(e, ast.Name) and isinstance(self.module_consts.get(e.id), int):
+            return str(self.module_consts[e.id])
+        # x in CONSTANT_SET / x in (a, b)
+        if isinstance(e, ast.Compare) and len(e.ops) == 1 and isinstance(e.ops[0], (ast.In, ast.NotIn)):
+            r = e.comparators[0]
+            if isinstance(r, ast.Name) and isinstance(self.module_consts.get(r.id), list):
+                items = [str(x) for x in self.module_consts[r.id]]
+            elif isinstance(r, (ast.Tuple, ast.Set, ast.List)):
+                items = [self.expr(x) for x in r.elts]
+            else:
+                fail(e, "membership")
+            t = f"([{', '.join(items)}].contains {self.atom(e.left)})"
+            return t if isinstance(e.ops[0], ast.In) else f"(!{t})"
+        # a <= b <= c
+        if isinstance(e, ast.Compare) and len(e.ops) == 2 and all(isinstance(o, (ast.LtE, ast.Lt)) for o in e.ops):
+            sym = lambda o: "≤" if isinstance(o, ast.LtE) else "<"  # noqa: E731
+            a, b, c = self.atom(e.left), self.atom(e.comparators[0]), self.atom(e.comparators[1])
+            return f"(decide ({a} {sym(e.ops[0])} {b}) && decide ({b} {sym(e.ops[1])} {c}))"
+        # X if C else Y
+        if isinstance(e, ast.IfExp):
+            return f"(if {self.cond(e.test)} then {self.expr(e.body)} else {self.expr(e.orelse)})"
         if isinstance(e, ast.Call) and isinstance(e.func, ast.Name) and e.func.id == "len" and len(e.args) == 1 \
                 and self.type_of(e.args[0]) == "Bytes":
             return f"{self.atom(e.args[0])}.length"
@@ -100,6 +152,20 @@ class Func(Method):
         return f"({self.atom(e)}).toNat" if self.is_byte(e) else self.atom(e)
 
     def stmt(self, ind: int, s: ast.stmt) -> None:
+        # names of enum members are only used in messages: `x_name = jelly.SomeEnum.Name(x)`
+        if isinstance(s, ast.Assign) and len(s.targets) == 1 and isinstance(s.targets[0], ast.Name) and s.targets[0].id.endswith("_name") \
+                and isinstance(s.value, ast.Call) and isinstance(s.value.func, ast.Attribute) and s.value.func.attr == "Name":
+            return
+        # object.__setattr__(self, "version", X)  (frozen dataclass): the value the attribute ends up with is the result
+        if isinstance(s, ast.Expr) and isinstance(s.value, ast.Call) and ast.unparse(s.value.func) == "object.__setattr__" \
+                and len(s.value.args) == 3 and isinstance(s.value.args[1], ast.Constant) and s.value.args[1].value == self.setattr_result:
+            self.emit(ind, f"return {self.expr(s.value.args[2])}")
+            return
+        if isinstance(s, ast.Assign) and len(s.targets) == 1 and isinstance(s.targets[0], ast.Name) and self.is_boolish(s.value):
+            self.bool_locals = set(self.bool_locals) | {s.targets[0].id}
+        if isinstance(s, ast.Return) and s.value is None and self.ret == "Unit":
+            self.emit(ind, "return ()")
+            return
         # for sep in "#", "/":  -> unrolled
         if isinstance(s, ast.For) and isinstance(s.target, ast.Name) and isinstance(s.iter, ast.Tuple) and not s.orelse \
                 and all(isinstance(x, ast.Constant) and isinstance(x.value, str) for x in s.iter.elts):
@@ -121,6 +187,8 @@ class Func(Method):
                 self.assign_local(ind, el.id, t + proj)
             return
         super().stmt(ind, s)
+
+    setattr_result: str | None = None
 
     def render(self) -> str:
         text = super().render()
@@ -145,6 +213,48 @@ def translate() -> str:
         out.append(f"/-- `{name}` ({rel}:{fn.lineno}) -/")
         out.append(text)
         out.append("")
+    # pyjelly/options.py: the validators, as functions of the attributes they read
+    rel = "pyjelly/options.py"
+    tree = ast.parse((REPO / rel).read_text())
+    from pyjelly import jelly
+    consts: dict[str, object] = {}
+    for n in tree.body:
+        tgt = val = None
+        if isinstance(n, ast.AnnAssign) and isinstance(n.target, ast.Name):
+            tgt, val = n.target.id, n.value
+        elif isinstance(n, ast.Assign) and len(n.targets) == 1 and isinstance(n.targets[0], ast.Name):
+            tgt, val = n.targets[0].id, n.value
+        if tgt is None or val is None:
+            continue
+        if isinstance(val, ast.Constant) and isinstance(val.value, int) and not isinstance(val.value, bool):
+            consts[tgt] = val.value
+        elif isinstance(val, ast.Set) and all(isinstance(x, ast.Attribute) and isinstance(x.value, ast.Name) and x.value.id == "jelly" for x in val.elts):
+            consts[tgt] = [int(getattr(jelly, x.attr)) for x in val.elts]
+    classes = {n.name: n for n in tree.body if isinstance(n, ast.ClassDef)}
+
+    def method(cls, name):
+        cd = classes.get(cls)
+        fn = next((f for f in (cd.body if cd else []) if isinstance(f, ast.FunctionDef) and f.name == name), None)
+        if fn is None:
+            raise Unsupported(f"{rel}: {cls}.{name} not found")
+        return fn
+
+    fn = next((n for n in tree.body if isinstance(n, ast.FunctionDef) and n.name == "validate_type_compatibility"), None)
+    if fn is None:
+        raise Unsupported(f"{rel}: validate_type_compatibility not found")
+    items = [(fn, Func(fn, module_consts=consts), "validate_type_compatibility")]
+    f2 = method("StreamTypes", "flat")
+    items.append((f2, Func(f2, name="StreamTypes.flat", self_attrs={"logical_type": "Nat"}, module_consts=consts), "StreamTypes.flat"))
+    f3 = method("LookupPreset", "__post_init__")
+    items.append((f3, Func(f3, name="LookupPreset.__post_init__", self_attrs={"max_names": "Nat"}, module_consts=consts), "LookupPreset.__post_init__"))
+    f4 = method("StreamParameters", "__post_init__")
+    g4 = Func(f4, name="StreamParameters.__post_init__", self_attrs={"namespace_declarations": "Bool", "version": "Nat"}, ret="int", module_consts=consts)
+    g4.setattr_result = "version"
+    items.append((f4, g4, "StreamParameters.__post_init__ (the value `version` ends up with)"))
+    for fnode, f, label in items:
+        out.append(f"/-- `{label}` ({rel}:{fnode.lineno}) -/")
+        out.append(f.render())
+        out.append("")
     out.append("end Jelly.Gen")
     return "\n".join(out) + "\n"
 
@@ -154,6 +264,9 @@ def main() -> int:
         text = translate()
     except Unsupported as e:
         print(f"gen_translate_funcs: source outside the translated fragment: {e}", file=sys.stderr)
+        return 3
+    except Exception as e:  # noqa: BLE001  (an AST shape the translator does not know: the same verdict, never a pass)
+        print(f"gen_translate_funcs: source outside the translated fragment (translator error {type(e).__name__}: {e})", file=sys.stderr)
         return 3
     if OUT.exists() and OUT.read_text() == text:
         print("gen_translate_funcs: unchanged")
